@@ -719,6 +719,7 @@ def truncation_mask(S, tol=0, tol_block=0,
         Smask._data[:] = False
         return Smask
 
+    temp_data[~Smask._data] = -float('inf')  # elements removed within blocks rank below all others (also for negative S)
     inds = S.config.backend.argsort(temp_data)
 
     if truncate_multiplets and D_total < len(inds):
